@@ -51,6 +51,11 @@ RULES = {
     'C06.o': 'a key record that was APPENDED (reclaiming snapshot, new key) is remembered at the address it was appended at: a mark-as-saved '
              'call that can follow an append of the key record in the same iteration does not take its key address from the copied entry '
              '(that offset points into the OLD key file; the next in-place update overwrites another record of the rewritten file)',
+    'C06.q': 'offsets keep their file: a running offset of the snapshot writer that is advanced by the size of a value record is an address in '
+             'the value file, one advanced by the size of a key record an address in the key file (likewise the two offsets copied from the '
+             'entry); every such offset reaches only parameters that are used for the same file (stored as Value.value_disk_addr or written '
+             'into a key record as its pointer = value file; stored as Value.key_disk_addr or used as the seek position of the in-place update '
+             '= key file) — both are u64, the compiler accepts them swapped',
     'C06.p': 'the loader keeps every key record it reads (C11.h, repeated): a record skipped on a size test — an empty value reads 0 bytes — is a live key missing after the restart',
 }
 
@@ -146,6 +151,7 @@ def run(ck, m):
     clean_mark_with_the_written_value(ck, m)
     writers_serialised(ck, m)
     appended_key_remembered_where_appended(ck, m)
+    offset_roles(ck, m)
     from nl import alias
     alias.repeat(ck, m, 'C11', ('C11.h',), 'C06.p', runner=__import__('props.C11', fromlist=['x']).loader_keeps_every_record)
 
@@ -913,3 +919,185 @@ def selection_shape(m):
         out['why'] = 'loop form'
         return out
     return out
+
+
+# ---- (q) offset roles --------------------------------------------------------------------------
+def _back_locals(body, op):
+    """locals an operand is computed from: backwards through copies, casts, arithmetic, references and tuples (calls are not followed)"""
+    out, st = set(), []
+    p0 = (op.get('c') or op.get('m')) if isinstance(op, dict) else None
+    if p0:
+        st.append(p0['l'])
+    while st:
+        l_ = st.pop()
+        if l_ in out:
+            continue
+        out.add(l_)
+        for (b2, s2, k2, rv) in body.defs().get(l_, []):
+            if k2 != 'assign':
+                continue
+            ops = []
+            if rv['k'] in ('use', 'cast'):
+                ops = [rv['o']]
+            elif rv['k'] == 'bin':
+                ops = [rv['a'], rv['b']]
+            elif rv['k'] in ('ref', 'rawptr'):
+                st.append(rv['p']['l'])
+            elif rv['k'] == 'agg' and rv.get('ak') == 'tuple':
+                ops = rv['ops']
+            for o in ops:
+                q = (o.get('c') or o.get('m')) if isinstance(o, dict) else None
+                if q:
+                    st.append(q['l'])
+    return out
+
+
+def _size_roles(P, body, roots, depth=0):
+    """what a record size stands for: the result of the value-record writer is a distance in the value file, of the key-record writer (or of
+    the key-size function) a distance in the key file; a helper's result is followed into the helper"""
+    out = set()
+    for r in roots:
+        if r[0] != 'call':
+            continue
+        c = callee(body.term(r[1]))
+        leaf = c.split('::')[-1]
+        if leaf == 'write_value':
+            out.add('value')
+        elif leaf in ('write_key', 'get_key_disk_size'):
+            out.add('key')
+        elif P.bodies.get(c) is not None and depth < 3:
+            g = P.bodies[c]
+            out |= _size_roles(P, g, core._local_origins(g, 0, tuple(r[-1]), (), set(), True), depth + 1)
+    return out
+
+
+def _param_roles(P, g, memo, depth=0):
+    """role of every u64 parameter of g, from what g does with it: stored as Value.value_disk_addr / written into a record with to_le_bytes
+    (only key records hold a pointer, and it points into the value file) -> 'value'; stored as Value.key_disk_addr / turned into a seek
+    position (the only positional write is the in-place key update) -> 'key'; handed to another function -> that parameter's role"""
+    if g.id in memo:
+        return memo[g.id]
+    memo[g.id] = {}
+    roles = {}
+    params = [i for i in range(1, g.argc + 1) if g.locals[i] == 'u64']
+    if not params or depth > 4:
+        return roles
+
+    def note(op, role_set):
+        bl = _back_locals(g, op)
+        for i in params:
+            if i in bl:
+                roles.setdefault(i, set()).update(role_set)
+    for bi, t in g.calls():
+        if is_log(t):
+            continue
+        d = callee_decl(t)
+        if d == 'std::num::to_le_bytes' and t['args']:
+            a0 = t['args'][0]
+            q = a0.get('c') or a0.get('m')
+            if q and g.locals[q['l']] == 'u64' and not q.get('p'):
+                note(a0, {'value'})
+            continue
+        h = P.bodies.get(callee(t))
+        if h is None or h.id == g.id:
+            continue
+        hr = _param_roles(P, h, memo, depth + 1)
+        for j, a in enumerate(t['args']):
+            if hr.get(j + 1):
+                note(a, hr[j + 1])
+    for bl_ in g.blocks:
+        if bl_.get('cleanup'):
+            continue
+        for s in bl_['s']:
+            if s['k'] != 'assign' or s['r']['k'] != 'agg' or s.get('exp'):
+                continue
+            rv = s['r']
+            if rv.get('adt', '').endswith('bo::Value'):
+                for fname, role in (('value_disk_addr', 'value'), ('key_disk_addr', 'key')):
+                    if fname in rv.get('fields', []):
+                        note(rv['ops'][rv['fields'].index(fname)], {role})
+            elif rv.get('adt') == 'std::io::SeekFrom' and rv.get('variant') == 'Start' and rv['ops']:
+                note(rv['ops'][0], {'key'})
+    memo[g.id] = roles
+    return roles
+
+
+def offset_roles(ck, m):
+    """C06.q — see RULES"""
+    from props.C07 import natural_loops as _nl
+    P = m.prog
+    try:
+        wb, tm, regions = writer_cells(m)
+    except core.AnchorError as e:
+        ck.undecided('C06.q', 'writer', 'anchor', str(e))
+        return
+    memo = {}
+    units = [wb] + [h for h in P.private_helpers(wb) if 'storage::' in h.id]
+    npairs = 0
+    bad = []
+    for ub in units:
+        inloop = set()
+        for h_, body_ in _nl(ub):
+            inloop |= body_
+        # running offsets of this body and what they count
+        run_roles = {}
+        for R in range(len(ub.locals)):
+            if ub.locals[R] != 'u64' or not ub.var_name(R):
+                continue
+            for (b2, s2, k2, rv) in ub.defs().get(R, []):
+                if k2 != 'assign' or rv['k'] != 'use' or b2 not in inloop:
+                    continue
+                q = rv['o'].get('c') or rv['o'].get('m')
+                if not q:
+                    continue
+                for (b3, s3, k3, rv3) in ub.defs().get(q['l'], []):
+                    if k3 == 'assign' and rv3['k'] == 'bin' and rv3['op'].startswith('Add'):
+                        sides = [rv3['a'], rv3['b']]
+                        selfs = [R in _back_locals(ub, o) for o in sides]
+                        if any(selfs) and not all(selfs):
+                            inc = sides[selfs.index(False)]
+                            run_roles.setdefault(R, set()).update(_size_roles(P, ub, origins(ub, inc, stop_at_calls=True)))
+        own_params = _param_roles(P, ub, memo)
+
+        def source_roles(op):
+            out = set()
+            bl = _back_locals(ub, op)
+            for R, rs in run_roles.items():
+                if R in bl:
+                    out |= rs
+            for r in origins(ub, op, stop_at_calls=True):
+                fs = [q[2] for q in r[-1] if q[0] == 'f'] if r and isinstance(r[-1], tuple) else []
+                if fs and fs[-1] == 'value_disk_addr':
+                    out.add('value')
+                elif fs and fs[-1] == 'key_disk_addr':
+                    out.add('key')
+            return out
+        for bi, t in ub.calls():
+            if is_log(t):
+                continue
+            g = P.bodies.get(callee(t))
+            if g is None:
+                continue
+            gr = _param_roles(P, g, memo)
+            for j, a in enumerate(t['args']):
+                want = gr.get(j + 1)
+                if not want:
+                    continue
+                have = source_roles(a)
+                if not have:
+                    continue
+                npairs += 1
+                if not (have & want):
+                    bad.append('%s passes a %s-file offset where %s expects a %s-file offset (argument %d, %s)' % (
+                        short(ub.id), '/'.join(sorted(have)), short(g.id), '/'.join(sorted(want)), j + 1, ub.loc(bi)))
+        # a parameter that ends up in both roles inside one helper is a swap or a mix-up there
+        for i, rs in own_params.items():
+            if len(rs) > 1:
+                bad.append('%s uses its parameter %s both as a value-file and as a key-file offset' % (short(ub.id), ub.var_name(i) or i))
+    ck.ob('C06.q', short(wb.id), 'offsets-keep-their-file', not bad,
+          'every offset the snapshot writer hands on (running offsets advanced by the size of a value record / a key record, offsets copied from '
+          'the entry) arrives in a parameter that is used as an offset of the same file' if not bad else
+          '%s: the key record points at an address of the other file and the entry remembers the wrong one — after a restart the key shows '
+          'another key\'s value or garbage, and the next in-place update writes into the middle of a neighbouring record' % '; '.join(sorted(set(bad))[:3]),
+          '%s:%s' % (wb.file, wb.line))
+    ck.floor('C06.q', npairs, 6, 'offset arguments of the snapshot writer whose role is known on both sides')
